@@ -107,6 +107,11 @@ var c13Contexts = []ctxTmpl{
 	{"function fn1(p1) { ", " }", true, true, true, false},
 	{"switch (c1) { case 1 { ", " } }", true, true, false, false},
 	{"switch (c1) { case 1, 2 { v1 = 1; } default { ", " } }", true, true, false, false},
+	// the hole comes after a return in the same block (code that can never run)
+	{"if (c1) { return 1; ", " }", true, true, false, false},
+	{"function fn3(p1) { return p1; ", " }", true, true, true, false},
+	{"foreach e3 in c3 { v1 = 1; return e3; ", " v2 = 2; }", true, true, false, false},
+	{"switch (c1) { default { return 2; ", " } }", true, true, false, false},
 	// statement contexts with an expression hole
 	{"v4 = ", ";", false, true, false, false},
 	{"return ", ";", false, true, false, false},
@@ -115,6 +120,8 @@ var c13Contexts = []ctxTmpl{
 	{"foreach e2 in ", " { v1 = 1; }", false, true, false, false},
 	{"switch (", ") { case 1 { v1 = 1; } }", false, true, false, false},
 	{"switch (c1) { case ", " { v1 = 1; } }", false, true, false, false},
+	{"switch (", ") { default { v1 = 1; } }", false, true, false, false},
+	{"switch (", ") { }", false, true, false, false},
 	{"v5 += (", ");", false, true, false, false},
 	// expression contexts with an expression hole
 	{"fn2(", ")", false, false, false, false},
@@ -212,6 +219,21 @@ func checkFragmentAt(t failer, col *evid.Collector, path []int, f fragment) {
 	if err := runReject(c); err != nil {
 		c.Msg = err.Error()
 		violation(t, "C13", c, "%v", err)
+	}
+	// the same script after a complete, valid prelude (a function definition,
+	// a returning block) and before a valid epilogue
+	for _, wrap := range [][2]string{
+		{"function pre1(z1) { local y1; y1 = z1; return y1; }\n", ""},
+		{"v0 = 1; while (v0 > 5) { v0 = 2; }\n", "\nfunction post1() { return 1; } v7 = post1();"},
+	} {
+		if inFn && strings.HasPrefix(f.text, "local") {
+			continue
+		}
+		wc := &RejectCase{Prop: "C13", Kind: "fragment", Script: wrap[0] + script + wrap[1], Why: f.note + " (after a valid prelude)"}
+		if err := runReject(wc); err != nil {
+			wc.Msg = err.Error()
+			violation(t, "C13", wc, "%v", err)
+		}
 	}
 	col.Class("fragment:" + f.note)
 	col.Class(fmt.Sprintf("depth:%d", len(path)))
@@ -383,4 +405,26 @@ func TestC13TruncationsGenerated(t *testing.T) {
 		}
 		col.Case(tr, true, func() interface{} { return map[string]string{"truncated": clip(c.Script, 300)} })
 	})
+}
+
+
+// TestC13Nul: a NUL character is not a silent end of the script.
+func TestC13Nul(t *testing.T) {
+	defer silenceAs("nul")()
+	col := evid.New("C13", "nul", "")
+	defer col.Flush()
+	valid := []string{"return true;", "x = 1; return x;", "if (a) { return 1; } return 2;", "function f() { return 1; } return f();"}
+	junk := []string{" @@@", " return (", " }", " 3 += 4;", "\x00", " local q;", " x = \"abc"}
+	for _, v := range valid {
+		for _, j := range junk {
+			for _, sep := range []string{"\x00", "\n\x00", " \x00 "} {
+				c := &RejectCase{Prop: "C13", Kind: "nul", Script: v + sep + j, Why: "text after a NUL character is invalid (and must not be dropped silently)"}
+				if err := runReject(c); err != nil {
+					c.Msg = err.Error()
+					violation(t, "C13", c, "%v", err)
+				}
+				col.Case(c.Script, true, func() interface{} { return map[string]string{"script": fmt.Sprintf("%q", c.Script)} })
+			}
+		}
+	}
 }
